@@ -46,6 +46,14 @@ PROPS = {
             {"name": "c08", "n_quick": 4000, "n_thorough": 200000, "model": "coq/Link/SenderCredit.v",
              "rule": "random histories of link flows (delivery-count truthful / unset / bogus, credit 0..200, 2^32-1 or unset, drain, echo) "
                      "and send attempts; initial delivery-count over-weighted within 100 of 0 and 2^32"},
+            {"name": "c07", "n_quick": 1500, "n_thorough": 30000, "model": "coq/Session/Window.v",
+             "rule": "the session histories of C07, a quarter of whose flows carry link state for an attached sending link (delivery-count, credit, drain, echo): the link's "
+                     "answer (model SenderCredit.snd_on_incoming_flow) must go out wrapped in a session flow, whatever else the same flow sets free (composition of both models "
+                     "in the oracle driver)"},
+            {"name": "txc", "n_quick": 300, "n_thorough": 4000, "oracle": False,
+             "rule": "the sender scripts of C16 (real Sender against a scripted receiver; messages cut by the peer's max-message-size and by the frame size); here the clauses for "
+                     "scripts WITHOUT cancellation: the transfers of one message form one delivery (one delivery-id, one tag, finished, nothing interleaved) and every delivery "
+                     "takes exactly one credit however many transfers carry it"},
             {"name": "c08w", "n_quick": 4, "n_thorough": 60, "oracle": False,
              "rule": "multi-threaded stress (4 workers) of the real consumer/producer pair: one consume(1) racing one grant per iteration "
                      "for n seconds; a lost wake-up is a consume still pending 1 s after the grant with credit >= 1"},
@@ -155,6 +163,9 @@ PROPS = {
              "rule": "1-3 sender links (rcv-settle-mode first/second at random) on one session; histories of unsettled sends and incoming "
                      "dispositions (single ids, ranges over several deliveries and links, settled/unsettled, every state incl. the "
                      "non-terminal received and unset, duplicates, out-of-range, wrong role), initial delivery-ids near 0 and 2^32"},
+            {"name": "txc", "n_quick": 300, "n_thorough": 4000, "oracle": False,
+             "rule": "the sender scripts of C16; here: messages sent with settled=true on links in snd-settle-mode mixed / unsettled / settled complete as accepted without "
+                     "waiting for a disposition and go out settled"},
         ],
         "rule": "a case is one send/disposition history run through the real Session + LinkRelay (facade) and the extracted Coq model "
                 "(echo frames, resolved outcomes, session delivery map and unsettled maps after every event); non-trivial = at least one "
@@ -176,6 +187,10 @@ PROPS = {
                      "remote-channel) / peer end / route-a-frame on one real Connection"},
             {"name": "c07", "n_quick": 1500, "n_thorough": 50000, "model": "coq/Session/Window.v",
              "rule": "delivery-id stamping: the C07 histories (the trace includes each frame's delivery-id and tag)"},
+            {"name": "txc", "n_quick": 300, "n_thorough": 4000, "oracle": False,
+             "rule": "the sender scripts of C16 (real Sender against a scripted receiver; messages cut by the peer's max-message-size and by the frame size); here the clauses for "
+                     "scripts WITHOUT cancellation: the transfers of one message form one delivery (one delivery-id, one tag, finished, nothing interleaved) and every delivery "
+                     "takes exactly one credit however many transfers carry it"},
         ],
         "rule": "a case is one operation history run on the real Session / Connection (facade) and on the extracted Coq model, every "
                 "result compared (handle / channel numbers, error kinds, which link or session received the routed frame); "
@@ -333,7 +348,8 @@ PROPS = {
                      "of every call (ok, error with scope link/session/connection and whether it carries the peer's error, or PENDING)"},
             {"name": "cut", "n_quick": 200, "n_thorough": 500, "oracle": False,
              "rule": "client connection + session + sender + receiver driven by four application tasks (open, begin, close / attach, end / send, send_batchable + its outcome, a "
-                     "two-frame send, detach / recv, accept, a two-frame delivery, close) against a reactive scripted peer; the transport is cut at EVERY byte offset of the reference "
+                     "two-frame send, detach / recv, accept, a two-frame delivery, close) against a reactive scripted peer (late=1: the second delivery is first only acknowledged as "
+                     "received, its outcome comes after the third); the transport is cut at EVERY byte offset of the reference "
                      "conversation in both directions (EOF; thorough: also reset and stall-then-EOF, pipes of 64 and 256 bytes), and a close / end / detach of either link, closing or "
                      "not, with and without error, is injected before and after every one of the peer's 15 frames, answered or not; every call is bounded by 600 s of virtual time; "
                      "direct oracle: no call pending, no panic, data-path calls fail, errors name the level that stopped and carry the peer's condition, engine tasks terminate"},
@@ -360,9 +376,11 @@ PROPS = {
                      "10..500 bytes with credit up front / late / as a window, pipes of 64..512 bytes and peers that stop reading for a while; the oracle searches the model's "
                      "drop points for an assignment that reproduces the transfers the peer saw (tags, pieces, more flags, message identity by content hash)"},
             {"name": "txc", "n_quick": 300, "n_thorough": 4000, "oracle": False,
-             "rule": "send side as for txcm plus messages larger than the frame size and the select!-loop pattern (re-send after each cancellation); recv side: recv() "
+             "rule": "send side as for txcm plus messages larger than the frame size, the select!-loop pattern (re-send after each cancellation) and rcv-settle-mode second "
+                     "(the scripted receiver's outcome is unsettled and it counts on the sender's settlement, also for its credit window); recv side: recv() "
                      "dropped at its k-th poll (k cycled from a list) and re-issued until everything is returned, auto-accept on/off, credit auto/manual, bursts, "
-                     "capacities 1/2/4/default; direct oracle: nothing lost, duplicated, reordered, partial or corrupted, no starvation, link usable"},
+                     "capacities 1/2/4/default for connection and session, 1/2/default for the session->link channel; direct oracle: nothing lost, duplicated, reordered, "
+                     "partial or corrupted, no starvation, every outcome settled in mode second, link usable"},
         ],
         "rule": "rx: see C09. txcm: a case is one script run against the real Sender (client, scripted byte-level receiver, paused clock); compared: the sequence of "
                 "transfers the peer saw against the model run with the drop points found by the oracle's search (no assignment = disagreement); non-trivial = a call was "
@@ -406,13 +424,19 @@ PROPS = {
              "rule": "the listener cases of the sasl sub whose client actions are whole well-formed actions (SASL header, AMQP header, init with valid / invalid "
                      "credentials or client-first, response correct / incorrect, a SASL frame a client must not send, AMQP open, EOF), abstracted to that alphabet; "
                      "every sequence up to length 4 (thorough 5) per mechanism family plus random ones; distinct abstract cases only"},
+            {"name": "saslc", "n_quick": 300, "n_thorough": 5000, "model": "coq/Auth/ScramClient.v",
+             "rule": "the SCRAM client (SHA-1/256/512) against the scripted server, abstracted to the model's alphabet: per stage the class of the server's message (SASL header or "
+                     "another header; mechanisms with / without the client's; a challenge that is well formed with a nonce extending the client's, a base64 salt and a decimal "
+                     "iteration count - or not; an outcome with its code and additional data good / bad / absent; garbage; EOF); every one of the 45 tamperings x 3 hash variants, "
+                     "12 iteration-count strings, 3 salts, plus random cases; distinct abstract cases only"},
             {"name": "sasl", "n_quick": 300, "n_thorough": 20000, "oracle": False,
              "rule": "listener (PLAIN, SCRAM-SHA-1/256/512, own and library credential stores) against a scripted byte-level client: all action sequences up to length 4 "
                      "over 10-letter alphabets, 22 PLAIN credential variants x 5 credential pairs, 12 mechanism names, 11 client-first and 14 client-final variants, malformed, "
                      "truncated, fragmented and out-of-turn frames, the library's own client with right/wrong credentials; SCRAM client against a scripted server: 45 "
                      "tamperings x 3 hash variants, 12 iteration-count strings, salts; the scripted side's SCRAM arithmetic is implemented in the harness (RFC 5802 test vectors pass)"},
         ],
-        "rule": "saslm: abstract case = mechanism family + action sequence, run against the real listener and through the extracted Coq step function; compared per step: "
+        "rule": "saslc: abstract case = the server's messages stage by stage, run against the real client and through the extracted Coq step function; compared per stage: init / response / "
+                "AMQP header / open written, result of open(). saslm: abstract case = mechanism family + action sequence, run against the real listener and through the extracted Coq step function; compared per step: "
                 "mechanisms / challenge / outcome ok or not / AMQP header / open / close written, accept() result, EOF. sasl: direct oracle on concrete traces "
                 "(open without authentication, outcome ok for bad credentials, valid exchange rejected, no failure reported, client accepts unproven server, "
                 "client ok on non-ok outcome, panic, hang); non-trivial = accept succeeded or a full SCRAM exchange took place",
@@ -421,8 +445,7 @@ PROPS = {
                     "against the library's client)",
                     "hmac/sha1/sha2 crates (the library's own dependencies) used by the scripted side"],
         "assumptions": ["the client's bytes arrive as whole frames in the model-compared cases (fragmented and malformed input is exercised by the sasl sub and C15)"],
-        "partial": ["the SCRAM CLIENT clauses (server must prove knowledge of the password; non-OK outcome is never success) are decided on the implementation by the direct "
-                    "oracle against the scripted server only - no Coq model of the client"],
+        "partial": ["the cryptographic strength of SCRAM is outside the model: the validity of a message (right proof, right signature, nonce extends) is decided by the harness's own RFC 5802 arithmetic"],
     },
     "C01": {
         "class_prefixes": ["c01-", "c06-frame-too-large", "c06-garbage", "c06-advertised-mfs", "harness-crash"],
